@@ -225,3 +225,75 @@ def classify(fn: Func, loop: ast.While):
                     return ("walk", f"{v} steps once per iteration and the loop leaves outside its [lower, upper] window")
             tried.append(f"{norm(c)}: no stepping cursor with a two-sided window test in the body")
     return (None, "; ".join(tried) or "condition shape not recognised")
+
+
+def definite_problem(fn: Func, loop: ast.While):
+    """Definite termination defects (used when no variant was found):
+    'runaway'   the only progress towards the exit is conditional while another variable is stepped unconditionally
+                on every iteration (it leaves every table it indexes before the loop ends)
+    'stuck'     some path from the loop head back to the head assigns none of the variables the loop condition
+                and the branch tests on that path read (and those tests contain no calls): once taken it is taken for ever
+    None        neither (unknown)"""
+    g = cfg_of(fn)
+    hdr = g.node_of(loop)
+    inside = _inside(loop)
+    conj = _conjuncts(loop.test)
+    # runaway
+    for c in conj:
+        if isinstance(c, ast.Compare) and len(c.ops) == 1 and isinstance(c.ops[0], (ast.Lt, ast.LtE, ast.Gt, ast.GtE)) \
+                and isinstance(c.left, (ast.Name, ast.Attribute)):
+            v = norm(c.left)
+            steps_v = [x for st in loop.body for x in ast.walk(st) if isinstance(x, ast.AugAssign) and norm(x.target) == v]
+            other = [x for st in loop.body for x in ast.walk(st) if isinstance(x, ast.AugAssign) and norm(x.target) != v
+                     and _pos_const(x.value)]
+            if steps_v and other and len(conj) == 1:
+                uncond = [o for o in other if _every_back_path_passes(fn, loop, lambda n, o=o: n.ast is o)]
+                cond_only = not _every_back_path_passes(fn, loop, lambda n: n.ast in steps_v)
+                if uncond and cond_only:
+                    return ("runaway", f"{v} advances only on some iterations while {norm(uncond[0].target)} is stepped on every iteration and "
+                                       f"does not appear in the loop condition")
+    # stuck: DFS over paths head -> head collecting assigned names and test names
+    read0 = {norm(x) for x in ast.walk(loop.test) if isinstance(x, (ast.Name, ast.Attribute))}
+    has_call0 = any(isinstance(x, ast.Call) for x in ast.walk(loop.test))
+    starts = [b for (b, l) in g.succ[hdr.id] if l == "T"]
+    stack = [(s, frozenset(), frozenset(read0), has_call0, 0) for s in starts]
+    seen = set()
+    while stack:
+        nid, assigned, reads, call, depth = stack.pop()
+        if depth > 60 or (nid, assigned, reads) in seen:
+            continue
+        seen.add((nid, assigned, reads))
+        n = g.nodes[nid]
+        a2, r2, c2 = set(assigned), set(reads), call
+        if n.ast is not None:
+            root = n.ast if n.kind not in ("for",) else n.ast.iter
+            if n.kind in ("if", "while"):
+                r2 |= {norm(x) for x in ast.walk(n.ast) if isinstance(x, (ast.Name, ast.Attribute))}
+                c2 = c2 or any(isinstance(x, ast.Call) for x in ast.walk(n.ast))
+            if n.kind == "stmt" and isinstance(n.ast, (ast.Assign, ast.AugAssign, ast.AnnAssign)):
+                for t in (n.ast.targets if isinstance(n.ast, ast.Assign) else [n.ast.target]):
+                    for y in ast.walk(t):
+                        if isinstance(y, (ast.Name, ast.Attribute)):
+                            a2.add(norm(y))
+            if n.kind == "for":
+                a2 |= {norm(y) for y in ast.walk(n.ast.target) if isinstance(y, ast.Name)}
+                c2 = True
+            if n.kind == "stmt" and isinstance(n.ast, ast.Expr) and isinstance(n.ast.value, ast.Call):
+                # a call statement may change anything reachable through its receiver
+                f_ = n.ast.value.func
+                if isinstance(f_, ast.Attribute):
+                    a2.add(norm(f_.value))
+        for (b, l) in g.succ[nid]:
+            if l in ("exc", "excb"):
+                continue
+            if b == hdr.id:
+                if not c2 and not (a2 & r2):
+                    return ("stuck", "a path through the body changes nothing the loop condition or its own branch tests read")
+                continue
+            bn = g.nodes[b]
+            if bn.ast is None and bn.kind != "join":
+                continue
+            if bn.ast is not None and id(bn.ast) not in inside:
+                continue
+            stack.append((b, frozenset(a2), frozenset(r2), c2, depth + 1))
+    return None
